@@ -91,6 +91,21 @@ theorem readStringLoop_le (q : Cur) (l : Bytes) (c : Cur) (acc : Bytes) (buf : B
   fun_induction readStringLoop q l c acc buf <;>
     simp_all [Step.restLe, mkErr, List.length_drop] <;> (try split) <;> simp_all <;> omega
 
+/-- since the repair of `readString` the `buf` flag (has an escape sequence been seen) does not
+    influence the loop: the value keeps the source bytes of every unescaped character either way -/
+theorem readStringLoop_buf_false (q : Cur) (l : Bytes) (c : Cur) (acc : Bytes) (b : Bool) :
+    readStringLoop q l c acc b = readStringLoop q l c acc false := by
+  fun_induction readStringLoop q l c acc b
+  all_goals (conv => rhs; rw [readStringLoop.eq_def])
+  all_goals simp_all
+  split
+  · exfalso; simp_all
+  · rfl
+
+theorem readStringLoop_buf_irrelevant (q : Cur) (l : Bytes) (c : Cur) (acc : Bytes) (b1 b2 : Bool) :
+    readStringLoop q l c acc b1 = readStringLoop q l c acc b2 := by
+  rw [readStringLoop_buf_false q l c acc b1, readStringLoop_buf_false q l c acc b2]
+
 theorem quoteRun_le (l : Bytes) : quoteRun l ≤ l.length := by
   fun_induction quoteRun l <;> simp_all <;> omega
 
